@@ -123,6 +123,65 @@ func arrayArity(pkg, name string) int {
 	if st == nil {
 		fatal("%s: struct %s not found", pkg, name)
 	}
+	return structArity(pkg, name, st)
+}
+
+// decodeArity: the arity of the struct type that <name>.UnmarshalCBOR actually hands to
+// cbor.Decode — a local `type t<Name> <Name>` (same layout) or a local struct literal type.
+func decodeArity(pkg, name string) int {
+	p := loadPkg(pkg)
+	fd := findFunc(p, name, "UnmarshalCBOR")
+	if fd == nil || fd.Body == nil {
+		fatal("%s: %s.UnmarshalCBOR not found", pkg, name)
+	}
+	res := []int{}
+	localName := ""
+	ast.Inspect(fd.Body, func(n ast.Node) bool {
+		ds, ok := n.(*ast.DeclStmt)
+		if !ok {
+			return true
+		}
+		gd, ok := ds.Decl.(*ast.GenDecl)
+		if !ok || gd.Tok != token.TYPE {
+			return true
+		}
+		for _, sp := range gd.Specs {
+			ts := sp.(*ast.TypeSpec)
+			switch t := ts.Type.(type) {
+			case *ast.StructType:
+				res = append(res, structArity(pkg, name+".UnmarshalCBOR/"+ts.Name.Name, t))
+			case *ast.Ident:
+				if t.Name != name {
+					fatal("%s: %s.UnmarshalCBOR: local type %s is %s, expected %s", pkg, name, ts.Name.Name, t.Name, name)
+				}
+				res = append(res, arrayArity(pkg, name))
+			default:
+				fatal("%s: %s.UnmarshalCBOR: unsupported local type %s", pkg, name, ts.Name.Name)
+			}
+			localName = ts.Name.Name
+		}
+		return true
+	})
+	if len(res) != 1 {
+		fatal("%s: %s.UnmarshalCBOR: expected exactly one local decode type, found %d", pkg, name, len(res))
+	}
+	// the local type must be what is decoded: `var tmp <local>` ... cbor.Decode(cborData, &tmp)
+	used := false
+	ast.Inspect(fd.Body, func(n ast.Node) bool {
+		if vs, ok := n.(*ast.ValueSpec); ok {
+			if id, ok := vs.Type.(*ast.Ident); ok && id.Name == localName {
+				used = true
+			}
+		}
+		return true
+	})
+	if !used {
+		fatal("%s: %s.UnmarshalCBOR: local type %s is not the decode target", pkg, name, localName)
+	}
+	return res[0]
+}
+
+func structArity(pkg, name string, st *ast.StructType) int {
 	asArray := false
 	n := 0
 	for _, f := range st.Fields.List {
@@ -234,8 +293,17 @@ func genSegCounts() {
 		l.pf("(\"%s\", %d)", era, segCountOf(era))
 	}
 	l.pf("]\n")
-	l.pf("/-- era ↦ number of CBOR array elements of the era's <Era>Block struct -/\n")
+	l.pf("/-- era ↦ number of CBOR array elements of the struct <Era>Block.UnmarshalCBOR decodes into\n    (cbor.Decode into a StructAsArray struct demands exactly this many elements) -/\n")
 	l.pf("def arity : List (String × Nat) := [")
+	for i, era := range segEras {
+		if i > 0 {
+			l.pf(", ")
+		}
+		l.pf("(\"%s\", %d)", era, decodeArity("ledger/"+era, title(era)+"Block"))
+	}
+	l.pf("]\n")
+	l.pf("/-- era ↦ number of exported CBOR array fields of the <Era>Block struct itself -/\n")
+	l.pf("def structArity : List (String × Nat) := [")
 	for i, era := range segEras {
 		if i > 0 {
 			l.pf(", ")
